@@ -136,6 +136,11 @@ class Empt:
                 return join(base.closed, base.last) or "?"
             if isinstance(base, tuple) and isinstance(idx, ast.Constant) and isinstance(idx.value, int) and -len(base) <= idx.value < len(base):
                 return base[idx.value]
+            if isinstance(base, TList):
+                # an element of a list of records is described by the join of everything appended; a slice of the list is such a list again
+                if isinstance(idx, ast.Slice):
+                    return base
+                return base.elem if base.elem is not None else "?"
             return "?"
         return "?"
 
